@@ -16,6 +16,7 @@ import OapiVerif.Model.EnumClash
 import OapiVerif.Model.Combine
 import OapiVerif.Model.IntParse
 import OapiVerif.Model.DateParse
+import OapiVerif.Model.UuidParse
 /-!
 Line-protocol driver: one JSON object per line in, one per line out.
 `{"fn": <name>, ...}` ↦ `{"ok": <result>}` or `{"err": "bad-op"}` (never a default).
@@ -374,6 +375,12 @@ def parseBoolD (j : Json) : Except String Json := do
     | some b => Json.mkObj [("ok", Json.bool b)]
     | none => Json.mkObj [("error", "rejected")])
 
+def parseUuidD (j : Json) : Except String Json := do
+  let s ← getHex j "s"
+  pure (match UuidParse.parse s with
+    | some bs => Json.mkObj [("ok", Json.arr (bs.map fun (b : Nat) => Json.num b).toArray), ("text", hexStr (UuidParse.render bs))]
+    | none => Json.mkObj [("error", "rejected")])
+
 def parseDateD (j : Json) : Except String Json := do
   let s ← getHex j "s"
   pure (match DateParse.parse s with
@@ -540,6 +547,7 @@ def dispatch (fn : String) (j : Json) : Except String Json :=
   | "combineParams" => combineParamsD j
   | "parseInt" => parseIntD j
   | "parseDate" => parseDateD j
+  | "parseUuid" => parseUuidD j
   | "parseBool" => parseBoolD j
   | "goQuote" => goQuoteD j
   | "secDefs" => secDefsD j
